@@ -171,6 +171,10 @@ package grpcgcp
 //@   ensures [C03.size-read] result == len(gb.scRefs)
 //@ func (gb *gcpBalancer) newSubConn
 //@   requires gb.cfg != nil
+// a channel is added only while no pool connection is still idle or connecting, and only below maxSize
+//@   callsite addSubConn#1 asserts [C03.grow-none-pending] forall sc, st in gb.scStates :: st != connectivity.Connecting && st != connectivity.Idle
+//@   callsite addSubConn#1 asserts [C03.grow-below-max-locked] maxSizeOf(gb) == 0 || len(gb.scRefs) < maxSizeOf(gb)
+//@   loop 1 invariant forall sc, st in gb.scStates :: $visited(sc) ==> st != connectivity.Connecting && st != connectivity.Idle
 //@   ensures [C01.frame] homeFrame(gb) && affUnchanged(gb) && fbUnchanged(gb)
 //@ func (gb *gcpBalancer) refresh
 //@   requires ref != nil && gb.cfg != nil && len(gb.scRefList) > 0
